@@ -677,6 +677,29 @@ def file_names_roundtrip(ctx, geo, c, tag):
                 geo.num_columns, back2.num_columns, len(geo.block_name_list), len(back2.block_name_list)), c)
 
 
+def left_justified_roundtrip(ctx, geo, c, tag):
+    """A geometry whose names are written at the left of their fields reads back with them at the right (the documented
+    form a write / read cycle reaches): nothing else changes - as many columns, nodes and blocks as were written, under the
+    same names apart from where the blanks are."""
+    mg = R.mulgrids
+    fn = os.path.join(ctx.tmp, 'c17_l.dat')
+    with ctx.guard(c, where='file-round-trip:' + tag) as g2:
+        geo.write(fn)
+        back = mg.mulgrid(fn)
+    if g2.raised is not None:
+        return
+    ctx.count('left_justified_geometries_reread_from_file')
+    for kind, a, b in (('column', geo.columnlist, back.columnlist), ('node', geo.nodelist, back.nodelist)):
+        na, nb = [x.name.strip() for x in a], [x.name.strip() for x in b]
+        if na != nb:
+            lost = [x for x in na if na.count(x) > 1][:4]
+            ctx.violation('left-justified:names-merge-in-file-round-trip:%s:%s' % (kind, tag), '%d %ss written, %d read back; names that differ only in where their blanks are: %r' % (
+                len(na), kind, len(nb), sorted(set(lost))), c)
+            return
+    if [n.replace(' ', '') for n in geo.block_name_list] != [n.replace(' ', '') for n in back.block_name_list]:
+        ctx.violation('left-justified:block-names-change-in-file-round-trip:' + tag, '%d blocks written, %d read back' % (len(geo.block_name_list), len(back.block_name_list)), c)
+
+
 def check_names_invert(ctx, geo, c, prefix):
     """For geometries with surfaces (not every column has a block in every layer): every block name is five characters,
     distinct, and splits into a layer and a column of the geometry that give the same name back."""
@@ -714,6 +737,11 @@ def run_derived(ctx, spec):
     for conv in range(4):
         for op in ('triangulate', 'split', 'refine', 'refine-bisect'):
             cases.append(('rect', (3, 3, 3), conv, conv % 3, op))
+    # names written at the left of their fields (justify='l'), then edited: the invented names must not be names the
+    # geometry already has once the blanks have moved
+    for conv in range(4):
+        for op in ('triangulate', 'split', 'refine', 'refine_layers'):
+            cases.append(('rect-left', (6, 6, 3), conv, (conv + 1) % 3, op))
     # geometries as they come from files, whose layers and columns are called whatever their author liked ('01', 'AA',
     # 'GS'): every block name still splits into the column and the layer it was built from
     from vf.gen import geos
@@ -746,6 +774,8 @@ def run_derived(ctx, spec):
         try:
             if kind == 'base':
                 geo = geoops.base(what, atmos_type=atm, convention=conv, surfaces=False)
+            elif kind == 'rect-left':
+                geo = mg.mulgrid().rectangular([10.] * what[0], [12.] * what[1], [2.] * what[2], convention=conv, atmos_type=atm, justify='l')
             else:
                 geo = mg.mulgrid().rectangular([10.] * what[0], [12.] * what[1], [2.] * what[2], convention=conv, atmos_type=atm)
         except Exception as e:
@@ -764,6 +794,8 @@ def run_derived(ctx, spec):
                 geo.split_column(col.name, col.node[0].name)
             elif op == 'refine':
                 geo.refine([geo.columnlist[4]])
+            elif op == 'refine_layers':
+                geo.refine_layers([geo.layerlist[1]], factor=3)
             else:
                 geo.refine([geo.columnlist[4], geo.columnlist[5]], bisect=True)
         if g.raised is not None:
@@ -773,7 +805,10 @@ def run_derived(ctx, spec):
         ctx.see('derived_by', op)
         ctx.case(('derived', repr(sorted(c.items()))), nontrivial=True)
         check_geometry_names(ctx, geo, c, prefix='derived[%s]:' % op)
-        file_names_roundtrip(ctx, geo, c, op)
+        if kind == 'rect-left':
+            left_justified_roundtrip(ctx, geo, c, op)
+        else:
+            file_names_roundtrip(ctx, geo, c, op)
 
 
 def run_shard(ctx, spec):
